@@ -19,6 +19,7 @@ DOC = {
         'C13.R2': 'rehash: drop(original tx) dominates the recv loop; tasks capture a Sender clone; the loop leaves only on Err(recv); every received item is added; the throttle guard is acquired before spawn and dropped inside the task',
         'C13.R3': 'no HashMap/HashSet/DashMap iteration reachable from group_files/write_report (named exceptions)',
         'C13.R4': 'each FilePos-FileLen / FileLen-FileLen is dominated by a comparison of the same operands or its right operand is clamped by min(_, left)',
+        'C13.R7': 'giving the roots with --stdin instead of as arguments is equivalent: every consumer of the list of input paths (validate, root_paths for --isolate, the scan) uses the same source - GroupConfig::validate must not count `paths` alone when `stdin` is set, and the stdin list must not be read more than once',
         'C13.R6': 'no child process shares the standard input or output of fclones (the list of paths of --stdin, the report): every Command created in the library gets an explicit stdin and stdout before it is spawned',
         'C13.R5': 'termination: the semaphore blocking the hashing tasks never loses a wake-up (re-evaluates C19.R1-R4)',
     },
@@ -35,6 +36,7 @@ def run(ctx):
     r4(ctx)
     r5(ctx)
     r6(ctx)
+    r7(ctx)
     from .common import run_mandatory
     run_mandatory(ctx, 'C13')
     if ctx.tier == 'thorough' and not getattr(ctx, 'sibling', None):
@@ -374,3 +376,28 @@ def r6(ctx):
                       'the command created here is spawned with inherited %s: a filter program started as the start-up probe of --transform reads the input paths of `--stdin` before fclones does '
                       '(files silently not scanned, different on every run) and copies them into the report on stdout' % sorted({'stdin', 'stdout'} - have))
     ctx.floor(rule, 'Command::new sites in the library', n, 2)
+
+
+def r7(ctx):
+    rule = 'C13.R7'
+    lib = ctx.lib
+    v = ctx.need_body(rule, 'config::GroupConfig::validate')
+    ip = ctx.need_body(rule, 'config::GroupConfig::input_paths')
+    if v is None or ip is None:
+        return
+    fields = set()
+    for blk in v.blocks:
+        for st in blk['stmts']:
+            for pl in [st['rv'].get('p')] + [((o.get('c') or o.get('m')) if isinstance(o, dict) else None) for o in [st['rv'].get('op')] + list(st['rv'].get('ops') or [])]:
+                if pl:
+                    fields |= set(place_fields(pl))
+        t = blk['term']
+        if t['k'] == 'switch':
+            pl = t['op'].get('c') or t['op'].get('m')
+            if pl:
+                fields |= set(place_fields(pl))
+    uses_paths = 'paths' in fields
+    knows_stdin = 'stdin' in fields or bool(v.calls(r'GroupConfig::(input_paths|root_paths)$'))
+    ctx.check(not uses_paths or knows_stdin, rule, v.path + '|isolate-with-stdin', v.where(), 'validate counts the input paths from the source that is used',
+              'validate() compares the number of *positional* paths with the replication factor; with --stdin there are none, so `printf "d1\\nd2\\n" | fclones group --isolate --stdin` is always '
+              'refused ("number of input paths (0)") although `fclones group --isolate d1 d2` works; and root_paths() would read the stdin list a second time (nothing left for the scan)')
